@@ -498,6 +498,12 @@ pub fn boundary_packets() -> Vec<Vec<u8>> {
             out.push(p);
         }
     }
+    for w in wide_packets(false) {
+        out.push(w);
+    }
+    for w in wide_packets(true) {
+        out.push(w);
+    }
     // pointer peculiarities
     let base = {
         let mut p = header(4, 0x8000, 1, 1, 0, 0);
@@ -637,6 +643,94 @@ pub fn boundary_packets() -> Vec<Vec<u8>> {
             }
             out.push(p);
         }
+    }
+    out
+}
+
+/// Accepted packets with "wide" values: more than 255 records in a section, data longer than 255 bytes,
+/// type / class / TTL / preference values with their high bytes set, names of exactly 255 bytes.
+pub fn wide_packets(pointer_free: bool) -> Vec<Vec<u8>> {
+    let mut out = vec![];
+    let qn = [1u8, b'w', 2, b'i', b'd', 0];
+    let own = |p: &mut Vec<u8>| -> Vec<u8> {
+        let _ = p;
+        if pointer_free { qn.to_vec() } else { ptr(12) }
+    };
+    // 300 answers, 260 authority records, 270 additional records with OPT in the middle
+    {
+        let mut p = header(40, 0x8180, 1, 300, 260, 271);
+        question(&mut p, &qn, 255);
+        for i in 0..300u32 {
+            let o = own(&mut p);
+            rr(&mut p, &o, 1, 0x0100_0000 | i, &[10, (i >> 8) as u8, i as u8, 1]);
+        }
+        for i in 0..260u32 {
+            let o = own(&mut p);
+            let mut rd = vec![1, b'n'];
+            rd.extend(if pointer_free { qn.to_vec() } else { ptr(12) });
+            rr(&mut p, &o, 2, i, &rd);
+        }
+        for i in 0..271u32 {
+            if i == 135 {
+                rr(&mut p, &[0], 41, 0x00ab_8000, &[0, 10, 0, 1, 9]);
+            } else {
+                let o = own(&mut p);
+                rr(&mut p, &o, 28, i, &[0u8; 16]);
+            }
+        }
+        out.push(p);
+    }
+    // data longer than 255 bytes in every opaque flavour, classes / types / TTLs with high bytes set
+    {
+        let mut p = header(41, 0x8180, 1, 4, 1, 2);
+        question(&mut p, &qn, 0x0101);
+        let o = own(&mut p);
+        rr(&mut p, &o, 16, 0xffff_ffff, &vec![200u8; 300]);
+        let o = own(&mut p);
+        rr(&mut p, &o, 0xff01, 0x8000_0000, &vec![7u8; 700]);
+        let o = own(&mut p);
+        let mut mx = vec![0xab, 0xcd];
+        mx.extend(if pointer_free { qn.to_vec() } else { ptr(12) });
+        rr(&mut p, &o, 15, 0x0102_0304, &mx);
+        // a record of another class
+        p.extend(&own(&mut Vec::new()));
+        p.extend(&[0, 1, 0x01, 0x00, 0, 0, 0, 5, 0, 4, 1, 2, 3, 4]);
+        let o = own(&mut p);
+        let mut soa = if pointer_free { qn.to_vec() } else { ptr(12) };
+        soa.extend(&[2, b'h', b'm']);
+        soa.extend(if pointer_free { qn.to_vec() } else { ptr(14) });
+        soa.extend(&[0xff; 20]);
+        rr(&mut p, &o, 6, 0x00ff_ff00, &soa);
+        rr(&mut p, &[0], 41, 0xff7f_ffff, &{
+            let mut rd = vec![0xff, 0xfe, 0x01, 0x2c];
+            rd.extend(vec![3u8; 300]);
+            rd
+        });
+        let o = own(&mut p);
+        rr(&mut p, &o, 1, 1, &[1, 1, 1, 1]);
+        out.push(p);
+    }
+    // names of exactly 255 bytes: question, owner (literal or a prefix + pointer), NS data
+    {
+        let mut long = vec![];
+        for c in [b'p', b'q', b'r'] {
+            long.push(63);
+            long.extend(vec![c; 63]);
+        }
+        long.push(61);
+        long.extend(vec![b's'; 61]);
+        long.push(0);
+        assert_eq!(long.len(), 255);
+        let mut p = header(42, 0x8180, 1, 2, 0, 0);
+        question(&mut p, &long, 1);
+        let o = if pointer_free { long.clone() } else { ptr(12) };
+        rr(&mut p, &o, 2, 9, &o);
+        // 64-byte prefix replaced: first label shortened so that prefix label + pointer still gives 255
+        let mut o2 = vec![63u8];
+        o2.extend(vec![b'P'; 63]);
+        o2.extend(if pointer_free { long[64..].to_vec() } else { ptr(12 + 64) });
+        rr(&mut p, &o2, 5, 9, &o2);
+        out.push(p);
     }
     out
 }
@@ -929,6 +1023,26 @@ pub fn compress_families() -> Vec<Vec<u8>> {
             rr(&mut p, &s1, 1, 1, &[1, 1, 1, 1]);
             out.push(p);
         }
+    }
+    for w in wide_packets(true) {
+        out.push(w);
+    }
+    // output positions beyond 64 KiB (larger than any DNS message on the wire, but accepted): names there must
+    // not be remembered as if they lived at position mod 65536
+    {
+        let mut p = header(26, 0x8000, 1, 7, 0, 0);
+        question(&mut p, &[1, b'q', 0], 1);
+        rr(&mut p, &[6, b'v', b'i', b'c', b't', b'i', b'm', 4, b't', b'e', b's', b't', 0], 1, 1, &[1, 1, 1, 1]);
+        rr(&mut p, &[1, b'q', 0], 16, 1, &vec![b'x'; 40000]);
+        let here = p.len();
+        // second filler sized so that the next owner name starts at 65536 + (offset of the "victim.test" record)
+        let target = 65536 + 19;
+        rr(&mut p, &[1, b'q', 0], 16, 1, &vec![b'y'; target - here - 13]);
+        rr(&mut p, &[6, b'a', b't', b't', b'a', b'c', b'k', 4, b'e', b'v', b'i', b'l', 0], 1, 1, &[2, 2, 2, 2]);
+        rr(&mut p, &[4, b'b', b'b', b'b', b'b', 6, b'a', b't', b't', b'a', b'c', b'k', 4, b'e', b'v', b'i', b'l', 0], 1, 1, &[3, 3, 3, 3]);
+        rr(&mut p, &[4, b'c', b'c', b'c', b'c', 6, b'v', b'i', b'c', b't', b'i', b'm', 4, b't', b'e', b's', b't', 0], 1, 1, &[4, 4, 4, 4]);
+        rr(&mut p, &[2, b'n', b's', 6, b'a', b't', b't', b'a', b'c', b'k', 4, b'e', b'v', b'i', b'l', 0], 2, 1, &[3, b'n', b's', b'2', 6, b'a', b't', b't', b'a', b'c', b'k', 4, b'e', b'v', b'i', b'l', 0]);
+        out.push(p);
     }
     // mixed-case duplicates, in owners and in data of each name-bearing type
     for ty in [2u16, 5, 12, 15, 6] {
